@@ -33,7 +33,7 @@ Proof. reflexivity. Qed.
 Lemma function_analyser_visitors :
   visitors_FunctionAnalyser =
   ["AnnAssign"; "AnyAssign"; "AnyFunctionDef"; "Assign"; "AsyncFor"; "AsyncFunctionDef"; "AsyncWith"; "Attribute";
-   "AugAssign"; "Call"; "ClassAssign"; "ClassDef"; "Delete"; "DictComp"; "For"; "FunctionDef"; "GeneratorExp";
+   "AugAssign"; "Call"; "ClassAssign"; "ClassDef"; "Delete"; "DictComp"; "ExceptHandler"; "For"; "FunctionDef"; "GeneratorExp";
    "Global"; "Import"; "ImportFrom"; "Lambda"; "LambdaAssign"; "ListComp"; "Name"; "NamedExpr"; "NamedTupleAssign";
    "Nonlocal"; "Return"; "ReturnValue"; "SetComp"; "Starred"; "Subscript"; "With";
    "call_to_target_with_custom_analyser"; "compound_name"; "comprehension"].
